@@ -419,8 +419,13 @@ class ClimateFamily(NetFamily):
     def setup_climate(self):
         pass
 
-    def regenerated(self, run):
-        run.model.update(A_over=False, A=None, la_w=None, w=None)
+    def regenerated(self, run, keep_density=False):
+        #  set_link_density is a one-off request: it fixes the absolute threshold, and every
+        #  later regeneration (non_local, winter_only, max_delay ...) re-uses that threshold
+        m = run.model
+        if m["dens"] is not None and not keep_density:
+            m.update(thr=float(run.obj.threshold()), dens=None)
+        m.update(A_over=False, A=None, la_w=None, w=None)
 
     def _thr(self, run, k):
         #  the k-th threshold is a fixed quantile of the object's current off-diagonal
@@ -445,7 +450,7 @@ class ClimateFamily(NetFamily):
         d = self.dens_pool[k % len(self.dens_pool)]
         run.obj.set_link_density(d)
         run.model.update(thr=None, dens=d)
-        self.regenerated(run)
+        self.regenerated(run, keep_density=True)
         return {"link_density": d}
 
     def m_nonlocal(self, run, k):
@@ -966,8 +971,10 @@ class RNSpec(RPSpec, NetFamily):
         run.model.update(A_over=False, A=None, w=None, la_w=None)
 
     def after_emb(self, run):
-        #  neither R nor the network is recomputed by the embedding setter
-        run.model.update(A_over=True, A=np.asarray(run.obj.adjacency).copy())
+        #  neither R nor the network is recomputed by the embedding setter; the network keeps
+        #  its current adjacency and directedness (directed after a local-recurrence-rate setter)
+        run.model.update(A_over=True, A=np.asarray(run.obj.adjacency).copy(),
+                         directed=bool(run.obj.directed))
 
     def start(self):
         run = RPSpec.start(self)
@@ -976,6 +983,10 @@ class RNSpec(RPSpec, NetFamily):
 
     def ctor_kw(self, m):
         kw = RPSpec.ctor_kw(self, m)
+        if m["rspec"][0] == "explicit" and m.get("directed"):
+            #  the only constructor form that yields a directed recurrence network
+            kw.pop("threshold", None)
+            kw["local_recurrence_rate"] = 0.3
         return kw
 
     def finish(self, t, m):
